@@ -1275,6 +1275,29 @@ impl SparqlDatabase {
         }
     }
 
+    /// Byte offset of the `#` that starts a comment, ignoring `#` inside
+    /// `<...>` (IRI fragments) and inside double-quoted literals.
+    fn n3_comment_start(line: &str) -> Option<usize> {
+        let mut in_iri = false;
+        let mut in_literal = false;
+        let mut escaped = false;
+        for (offset, character) in line.char_indices() {
+            if escaped {
+                escaped = false;
+                continue;
+            }
+            match character {
+                '\\' if in_literal => escaped = true,
+                '"' if !in_iri => in_literal = !in_literal,
+                '<' if !in_literal => in_iri = true,
+                '>' if !in_literal => in_iri = false,
+                '#' if !in_iri && !in_literal => return Some(offset),
+                _ => {}
+            }
+        }
+        None
+    }
+
     // New parse_n3 function
     pub fn parse_n3(&mut self, n3_data: &str) {
         let lines: Vec<String> = n3_data.lines().map(|l| l.trim().to_string()).collect();
@@ -1293,7 +1316,7 @@ impl SparqlDatabase {
 
                 for raw_line in chunk {
                     let mut line = raw_line.as_str();
-                    if let Some(comment_start) = line.find('#') {
+                    if let Some(comment_start) = Self::n3_comment_start(line) {
                         line = &line[..comment_start];
                         line = line.trim();
                     }
